@@ -819,6 +819,27 @@ func c16File(res *Result, c Case, dir string, eng *twig.Engine, name, src string
 	if !servedCheck("first version", src) {
 		return
 	}
+	// one loader instance that reads, writes again within the same second, and reads again
+	pl := twig.NewCompiledLoader(dir)
+	if g, err := pl.Load(name); err == nil && g == src {
+		ep := twig.New()
+		if ep.RegisterString(name, src2) == nil && pl.SaveCompiled(ep, name) == nil {
+			res.Evaluations++
+			res.Hist["file:one-loader-instance-rewrites"]++
+			if g2, err := pl.Load(name); err != nil || g2 != src2 {
+				oracle("file/one loader instance", c, c16Clip(src2), fmt.Sprintf("%s (err=%v)", c16Clip(g2), err),
+					"a loader read the file, wrote the changed template into it and read again: what it reads is not the file as it is now")
+				return
+			}
+			ep2 := twig.New()
+			if ep2.RegisterString(name, src) == nil && pl.SaveCompiled(ep2, name) == nil {
+				if g3, err := pl.Load(name); err != nil || g3 != src {
+					oracle("file/one loader instance", c, c16Clip(src), fmt.Sprintf("%s (err=%v)", c16Clip(g3), err), "... and back to the first version")
+					return
+				}
+			}
+		}
+	}
 	for variant, mk := range map[string]func() *twig.Engine{
 		"registered again": func() *twig.Engine {
 			e := twig.New()
